@@ -651,6 +651,13 @@ fn snippet(rng: &mut Rng, theme: usize) -> Vec<u8> {
         }
         // repeating block ops with small counters are set up by register choice; here: LD BC,n ; ED Bx
         7 => {
+            // the memory-fill idiom: LDIR / LDDR with the destination one byte beside the source
+            if rng.chance(1, 5) {
+                let a = rng.u16();
+                let up = rng.bool();
+                let d = if up { a.wrapping_add(1) } else { a.wrapping_sub(1) };
+                return vec![0x21, a as u8, (a >> 8) as u8, 0x11, d as u8, (d >> 8) as u8, 0x01, 5 + (rng.u8() & 0x3F), 0x00, 0xED, if up { 0xB0 } else { 0xB8 }];
+            }
             let op = *rng.pick(&[0xB0u8, 0xB1, 0xB2, 0xB3, 0xB8, 0xB9, 0xBA, 0xBB]);
             vec![0x01, rng.u8() & 3, rng.u8() & 1 | (rng.u8() & 2), 0xED, op]
         }
